@@ -133,3 +133,32 @@ theorem tie_C04_translated_after_wait (s : St) (connErr : Bool) :
   unfold Generated.Trans.Client.afterWaitFailed
   simp only [tie_C04_isClosed, tie_C04_close, writerReset]
   cases hcl : s.closed <;> cases hg : s.gotExc <;> simp [hcl]
+
+/-! ### `Ping`, up to the point where the answer is awaited -/
+
+/-- **a closed client performs no write**: `Ping` on a closed client returns `ErrClosed` and leaves the state untouched
+(nothing encoded, nothing written) -/
+theorem tie_C04_translated_ping_closed (s : St) (fail : Option Bool) (connErr : Bool) (h : s.closed = true) :
+    Generated.Trans.Client.pingRequest s fail connErr = (s, true) := by
+  unfold Generated.Trans.Client.pingRequest
+  simp [tie_C04_isClosed, h]
+
+/-- **an abandoned `Ping` leaves nothing behind**: with a context that is already done the request fails, the client
+stays open and the writer is empty — the next request starts with its own first byte (the repaired F15) -/
+theorem tie_C04_translated_ping_abandoned (s : St) (fail : Option Bool) (connErr : Bool)
+    (ho : s.closed = false) (hd : s.ctxDead = true) :
+    (Generated.Trans.Client.pingRequest s fail connErr).2 = true ∧
+      (Generated.Trans.Client.pingRequest s fail connErr).1.pending = 0 ∧
+      (Generated.Trans.Client.pingRequest s fail connErr).1.closed = false := by
+  unfold Generated.Trans.Client.pingRequest Generated.Trans.Client.flush
+  simp [tie_C04_isClosed, ho, hd, writerReset]
+
+/-- on an open client with a live context the single Ping byte is flushed (or the client is closed by the failed write) -/
+theorem tie_C04_translated_ping_sent (s : St) (fail : Option Bool) (connErr : Bool)
+    (ho : s.closed = false) (hd : s.ctxDead = false) :
+    (Generated.Trans.Client.pingRequest s fail connErr).1.pending = 0 ∧
+      ((Generated.Trans.Client.pingRequest s fail connErr).2 = false ∨
+        (Generated.Trans.Client.pingRequest s fail connErr).1.closed = true) := by
+  unfold Generated.Trans.Client.pingRequest Generated.Trans.Client.flush
+  simp only [tie_C04_isClosed, ho, tie_C04_close]
+  cases fail <;> simp [hd, ho, writerFlush]
